@@ -280,9 +280,38 @@ func r043(c *an.Ctx) {
 			return
 		}
 		name := "(*pkg/resource." + recv + ")." + meth
-		// the stored change time: a Store to field changeTime in fn or its closures
+		// the stored change time: a Store to field changeTime in fn, its closures, or a helper of the package they call
+		scope := an.WithClosures(fn)
+		for _, f := range append([]*ssa.Function(nil), scope...) {
+			an.Instrs(f, func(in ssa.Instruction) {
+				call, ok := in.(*ssa.Call)
+				if !ok {
+					return
+				}
+				g := call.Call.StaticCallee()
+				if g == nil || g.Pkg != fn.Pkg || len(g.Blocks) == 0 || an.CalleeName(call) == upq {
+					return
+				}
+				has := false
+				an.Instrs(g, func(in2 ssa.Instruction) {
+					if st, isSt := in2.(*ssa.Store); isSt {
+						if _, _, fld, isF := an.FieldOf(st.Addr); isF && fld == storedField {
+							has = true
+						}
+					}
+				})
+				if has {
+					for _, s0 := range scope {
+						if s0 == g {
+							return
+						}
+					}
+					scope = append(scope, g)
+				}
+			})
+		}
 		var stored ssa.Value
-		for _, f := range an.WithClosures(fn) {
+		for _, f := range scope {
 			an.Instrs(f, func(in ssa.Instruction) {
 				if st, ok := in.(*ssa.Store); ok {
 					if _, _, fld, isF := an.FieldOf(st.Addr); isF && fld == storedField {
@@ -292,7 +321,7 @@ func r043(c *an.Ctx) {
 			})
 		}
 		// the stored time is written on every path of the save callback (a conditional store keeps a stale time)
-		for _, f := range an.WithClosures(fn) {
+		for _, f := range scope {
 			an.Instrs(f, func(in ssa.Instruction) {
 				st, ok := in.(*ssa.Store)
 				if !ok {
@@ -345,6 +374,16 @@ func r043(c *an.Ctx) {
 			if ev == nil || stored == nil {
 				c.Unk(rule, name+"|event time is the stored time", s.Pos(), "event literal or stored change time not recognised")
 				continue
+			}
+			// (the event may take its time from what a storing helper returns: the helper's single return value)
+			if srcs := an.Sources(ev); len(srcs) == 1 {
+				if hc, isCall := srcs[0].(*ssa.Call); isCall && an.CalleeName(hc) != upq {
+					if g := hc.Call.StaticCallee(); g != nil && g.Pkg == fn.Pkg {
+						if rets := an.Returns(g); len(rets) == 1 && len(rets[0].Results) == 1 {
+							ev = rets[0].Results[0]
+						}
+					}
+				}
 			}
 			// (the event may take its time by reading the field back right after the save wrote it: that load yields
 			// the value of the store before it in the same block)
